@@ -406,3 +406,17 @@ def stream_runs(rep, binary, prop, fns, nwires, thorough=False):
     rep.cov["stream"] = {"model_configurations": len(jobs), "recorded_runs": len(recorded), "steps": nsteps,
                          "capture_runs": sum(1 for r in runs if r["id"].startswith("cap:"))}
     rep.sample({"stream_run": recorded[0]["id"], "events": [[e["a"], e.get("st", {}).get("have")] for e in recorded[0]["events"][:12]]})
+
+
+def tlaps_proof(rep, prop, module, theorem):
+    """A TLAPS proof is part of the check: tlapm must discharge every obligation of <module>.tla (no proof, no claim)."""
+    import re, shutil, subprocess
+    pd = vlib.workdir(prop, "tlaps_" + module)
+    p = subprocess.run(["timeout", "600", "tlapm", "--threads", "4", module + ".tla"], cwd=pd, capture_output=True, text=True)
+    m = re.search(r"All (\d+) obligations? proved", p.stdout + p.stderr)
+    if not m:
+        raise vlib.ToolError("tlapm did not prove %s: %s" % (module, (p.stdout + p.stderr)[-800:]))
+    rep.cov.setdefault("tlaps_proofs", []).append({"module": module + ".tla", "theorem": theorem, "obligations": int(m.group(1)), "discharged": int(m.group(1))})
+    if module == "DefragLen":
+        rep.cov["tlaps"] = rep.cov["tlaps_proofs"][-1]
+    shutil.rmtree(os.path.join(pd, ".tlacache"), ignore_errors=True)
